@@ -27,7 +27,7 @@ def mag (b : UInt64) : Nat := (b &&& 0x7fffffffffffffff).toNat
 /-- Order key: IEEE order on non-NaN values is the integer order on keys; `-0` and `+0` share key 0. -/
 def key (b : UInt64) : Int := if signBit b then -(mag b : Int) else (mag b : Int)
 
-def eq (a b : UInt64) : Bool := !isNaN a && !isNaN b && key a == key b
+def eq (a b : UInt64) : Bool := !isNaN a && !isNaN b && decide (key a = key b)
 def lt (a b : UInt64) : Bool := !isNaN a && !isNaN b && decide (key a < key b)
 def isZero (b : UInt64) : Bool := mag b == 0
 
